@@ -59,7 +59,7 @@ def varint(n):
 
 def txid_of(d):
     vins, vouts, lock, _ = d
-    s = struct.pack('<i', 1) + varint(len(vins))
+    s = struct.pack('<i', 1 + lock % 3) + varint(len(vins))       # version 1 / 2 / 3 as a function of the lock time (tools/impl/C15.py mk_tx does the same)
     for h, n, sc in vins:
         s += h + struct.pack('<I', n) + varint(len(sc)) + sc + struct.pack('<I', 0xffffffff)
     s += varint(len(vouts))
